@@ -195,7 +195,8 @@ def _fold(e):
 
 # -- the engine --------------------------------------------------------------------------------------------------------------
 class Engine:
-    def __init__(self, ctx, entry, rules_fn, module):
+    def __init__(self, ctx, entry, rules_fn, module, style="inplace"):
+        self.style = style     # "inplace": entry(records, tstack) mutates both; "returns": entry(records, vars, tstack) -> (records, tstack)
         from .interp import ModuleInterp
         self.ctx = ctx
         self.mi = ModuleInterp(ctx, max_steps=400000)
@@ -271,7 +272,14 @@ class Engine:
         self.env["user_def_counter"] = dict(idc)
         self.env["rules_applied"] = []
         try:
-            self.mi.call(self.entry, recs, tstack)
+            if self.style == "inplace":
+                self.mi.call(self.entry, recs, tstack)
+            else:
+                names = sorted({v for r in recs for v in r["inpt_sk"] + r["outpt_sk"] if isinstance(v, str)} | {v for v in tstack if isinstance(v, str)})
+                res = self.mi.call(self.entry, recs, names, tstack)
+                if not (isinstance(res, tuple) and len(res) == 2):
+                    raise AnalysisError(f"{self.entry.name}: expected (records, target stack), got {type(res).__name__}")
+                recs, tstack = res
         except Raised as e:
             return {"rules": list(self.env.get("rules_applied") or []), "mismatch": {"kind": "raises", "what": str(e)}}
         except Unsupported as e:
@@ -392,6 +400,28 @@ class Family:
                     out.append(q)
         return out
 
+    def reducible(self, ops2=("ADD", "AND", "EQ", "LT")):
+        """Terms in which a type-1 rule has something to do: op(a, b) over the atoms (one operand may be a constant), bare, used twice
+        by one consumer, used by two consumers, and nested one level."""
+        atoms = ["X", "Y", 0, 1, evm.M]
+        disp = sorted(o for o in self.dispatched if o in evm.STACK_ARITY)
+        l1 = []
+        for o in disp:
+            a = evm.STACK_ARITY[o][0]
+            for args in itertools.product(atoms, repeat=a):
+                if all(isinstance(x, int) for x in args):
+                    continue
+                l1.append((o,) + args)
+        for t in l1:
+            yield t
+            for o2 in ops2:
+                yield (o2, t, t)
+                yield (o2, t, "Z")
+                yield (o2, "Z", t)
+                yield (o2, (o2, t, "Z"), t)
+            yield ("ISZERO", t)
+            yield ("NOT", t)
+
     def generic(self):
         """All terms op(a, b) and op(op'(a, b), c) / op(c, op'(a, b)) over the atoms, bare and under ISZERO, ISZERO.ISZERO, EQ(1, .)."""
         atoms = ["X", "Y"] + [c for c in self.consts if c in (0, 1, 2) or c == 2 ** 160 - 1]
@@ -414,13 +444,13 @@ class Family:
             yield ("EQ", t, 1)
 
 
-def examine(eng, fam, terms, variants=((False, False), (True, False), (False, True))):
+def examine(eng, fam, terms, variants=((False, False), (True, False), (False, True)), only_normal=True):
     """-> (stats, failures) ; failures: list of (rule, kind, pattern text, variant, mismatch)."""
     stats = {"patterns": 0, "normal": 0, "fired": 0, "by_rule": {}}
     fails = []
     for q in terms:
         stats["patterns"] += 1
-        if not fam.normal(q):
+        if only_normal and not fam.normal(q):
             continue
         stats["normal"] += 1
         for extra, rev in variants:
